@@ -1,4 +1,6 @@
 (* The scan loop of runner.go:116-228 ([Runner.scan]) exactly as coded, over ABSTRACT components:
+   (line numbers of runner.go are those of /repo commit 7e695b7; commit b89335b inserted 4 lines
+   into run() above, so at later commits add 4)
    the candidate finder ([findFirstChar]) and one run of the matcher ([execute]) are functions of
    the position only (everything else they read - text, program, Runtextstart - is fixed for the
    duration of one scan).  No proofs in this file; see Proofs/ScanProofs.v, Properties/C03.v.
